@@ -12,6 +12,12 @@ CLAIMED = {
          'all get_chunk_data hooks copy <= datalen bytes into a non-NULL buffer and restore the file position; the public chunk API validates '
          'arguments before dispatch. Payload identity after re-open and "audio untouched" are not decided.',
          'custom clang-AST/CFG dataflow: must-pass path rule + demand-driven interval/upper-bound analysis'),
+ 'C10': ('DESIGN.md §4 C10',
+         'Exact decision table of sf_format_check by constant propagation with case splitting over the finite class product (premise: the function is pure and '
+         'comparison-only, checked); for every accepted class feasible-path exploration of psf_open_file proves a success return is reachable and all four '
+         'write_T (write mode) / read_T (read mode) slots are assigned; for every rejected class no success return is feasible (open-time gate); enumeration '
+         'tables distinct/named, simple formats accepted, every major usable, getter indices inside the tables. Run-time acceptance of frames and identical re-open are not decided.',
+         'partial evaluation (constant propagation + case split) over clang CFG with interprocedural feasible-path exploration; table extraction'),
 }
 REASONS = {}
 DEFAULT_REASON = 'check not built yet (work in progress); see DESIGN.md'
